@@ -137,6 +137,7 @@ class Interp:
         self.model = None
         self.runner = None
         self.runner_key = None
+        self.array_params = {}
 
     # ---- build ops -------------------------------------------------------------------------
     def apply(self, op):
@@ -208,7 +209,15 @@ class Interp:
         for comp, adjs in op.get("inf_adj") or []:
             s.add_infectiousness_adjustments(comp, {k: py_adj(a) for k, a in adjs})
         if op.get("mixing") is not None:
-            s.set_mixing_matrix(py_matrix(op["mixing"]))
+            if op.get("mixing_array_param"):
+                # the whole matrix is ONE array-valued Parameter (the usual way a contact matrix is supplied); its entries are the scalar
+                # parameters named in op["mixing"] (which is what the Lean model reads), assembled into the array in `_params`
+                from summer2.parameters import Parameter as _Parameter
+                assert all(set(e) == {"p"} for row in op["mixing"] for e in row), "array-parameter matrix entries must be plain parameters"
+                self.array_params[op["mixing_array_param"]] = [[e["p"] for e in row] for row in op["mixing"]]
+                s.set_mixing_matrix(_Parameter(op["mixing_array_param"]))
+            else:
+                s.set_mixing_matrix(py_matrix(op["mixing"]))
         self.model.stratify_with(s)
         return {"n_comps": len(self.model.compartments), "n_flows": len(self.model.flows)}
 
@@ -299,7 +308,13 @@ class Interp:
         return {"times": [float(t) for t in self.model.times]}
 
     def _params(self, op):
-        return {k: num(v) for k, v in op["params"]}
+        p = {k: num(v) for k, v in op["params"]}
+        for name, rows in self.array_params.items():
+            if all(k in p for row in rows for k in row):
+                p[name] = np.array([[p[k] for k in row] for row in rows], dtype=float)
+                for row in rows:
+                    for k in row: p.pop(k, None)
+        return p
 
     def _get_runner(self, params, **kw):
         key = json.dumps(kw, sort_keys=True, default=str)
